@@ -217,6 +217,24 @@ Definition nlen (n : nat) : N := N.of_nat n.
    Returns the token, the state after it, or an error position. *)
 Inductive stepres := SOk (t : token) (st' : lst) (len : nat) | SErr (line col : N).
 
+Definition is_multi (k : kind) : bool :=
+  match k with KMStr | KMFStr | KStr | KFStr => true | _ => false end.
+
+(* A regex token of kind k with text txt (n characters).  Multi-line tokens move
+   lineno/line_start: for 'string'/'fstring' this is the behaviour after the fix "lexer
+   lost track of lines after a quoted string containing a newline"; for the triple-quoted
+   forms it is mparser.py:219-224 (len(lines[-1]) + 3 = characters after the last newline). *)
+Definition tok_step (k : kind) (txt : str) (n : nat) (st : lst) : stepres :=
+  let col := l_off st - l_ls st in
+  let off' := l_off st + nlen n in
+  let nls := count_nl txt in
+  if is_multi k && negb (nls =? 0) then
+    SOk (mkTok k txt (l_line st) col (l_off st))
+        (mkL off' (off' - after_last_nl txt) (l_line st + nls) (l_par st) (l_brk st) (l_curl st)) n
+  else
+    SOk (mkTok k txt (l_line st) col (l_off st))
+        (mkL off' (l_ls st) (l_line st) (l_par st) (l_brk st) (l_curl st)) n.
+
 Definition lex_step (s : str) (st : lst) : stepres :=
   let col := l_off st - l_ls st in
   match first_match s with
@@ -228,22 +246,8 @@ Definition lex_step (s : str) (st : lst) : stepres :=
           SOk (mkTok KWs txt (l_line st) col (l_off st))
               (mkL off' off' (l_line st + 1) (l_par st) (l_brk st) (l_curl st)) n
       | RK KId =>
-          let k := match keyword txt with Some k => k | None => KId end in
-          SOk (mkTok k txt (l_line st) col (l_off st))
-              (mkL off' (l_ls st) (l_line st) (l_par st) (l_brk st) (l_curl st)) n
-      | RK k =>
-          (* multi-line tokens move lineno/line_start.  For 'string'/'fstring' this is the
-             behaviour after the fix "lexer: keep line accounting right after a string
-             containing a newline"; for the ''' forms it is mparser.py:219-224. *)
-          let multi := match k with KMStr | KMFStr | KStr | KFStr => true | _ => false end in
-          let nls := count_nl txt in
-          if multi && negb (nls =? 0) then
-            let tail := after_last_nl txt in   (* len(lines[-1]) + 3 for the triple-quoted forms *)
-            SOk (mkTok k txt (l_line st) col (l_off st))
-                (mkL off' (off' - tail) (l_line st + nls) (l_par st) (l_brk st) (l_curl st)) n
-          else
-            SOk (mkTok k txt (l_line st) col (l_off st))
-                (mkL off' (l_ls st) (l_line st) (l_par st) (l_brk st) (l_curl st)) n
+          tok_step (match keyword txt with Some k => k | None => KId end) txt n st
+      | RK k => tok_step k txt n st
       end
   | None =>
       match s with
